@@ -42,7 +42,7 @@ PYTHON = '/venv/bin/python'
 GUARD = 'VERMOUTH_VERIF'
 
 
-class CaseTimeout(Exception):
+class CaseTimeout(BaseException):
     pass
 
 
@@ -315,9 +315,10 @@ def finish(mod, prop, tier, seed, records, shard_failures, planned, wall, replay
     for line in out_lines:
         print(line)
     print('%s tier=%s seed=%d cases=%d held=%d violated=%d (known=%d) inconclusive=%d '
-          'nontrivial_distinct=%d monitor_evals=%d wall=%.1fs' %
+          'subcases=%d sub_inconclusive=%d %r nontrivial_distinct=%d monitor_evals=%d wall=%.1fs' %
           (prop, tier, seed, len(records), verdicts['held'], verdicts['violated'],
-           sum(len(v) for v in known_seen.values()), verdicts['inconclusive'], len(nontrivial), hits, wall))
+           sum(len(v) for v in known_seen.values()), verdicts['inconclusive'], sub_total, sub_inconc, inconc_why,
+           len(nontrivial), hits, wall))
     interesting = {k: v for k, v in sorted(feats.items())}
     print('  features:', json.dumps(interesting))
     if replay:
